@@ -863,3 +863,15 @@ def classify(case, witness):
     known_findings.json suppress nothing.  The input predicates that identified them stay in the witness under
     "mechanism" / "cellsCrossSegment_call" for diagnosis only."""
     return None
+
+
+# floors for the call-history workloads added in session 3 (a run in which they were silently skipped is inconclusive)
+_floors_base = floors
+_FLOORS_EXTRA = {'counters': {'network_staged_build:index': 50, 'network_staged_build:bbox': 20}}
+
+
+def floors(tier):
+    f = _floors_base(tier)
+    for kind, d in _FLOORS_EXTRA.items():
+        f.setdefault(kind, {}).update(d)
+    return f
